@@ -74,6 +74,13 @@
    links and the target names have been determined and persisted.  Nothing else depends on the mode: the grid bounds
    and block locators are rewritten by every completed call in both modes.
 
+   LINK RULE AND EDITS BETWEEN CALLS (histories).  A.rule selects what is linked: "default" = areAxiallyLinked, "freeclad" = a
+   user subclass of AssemblyAxialLinkage overriding the documented areAxiallyLinked hook (LinkedR).  Between two calls the
+   assembly may be edited: ReplaceBlock = Block.replaceBlockWithBlock (the block keeps height and elevations and takes the
+   replacement's components and its designated target name), EditMult = Component.setDimension("mult", m) (links are
+   re-derived from the edited cold geometry by the next call: setAssembly always starts from scratch, whether the changer
+   object is new or re-used -- the adapter drives both).  A carries the current design and types0/expl = what it was built with.
+
    NOT MODELLED  AxialExpansionChanger.expandColdDimsToHot / applyColdHeightMassIncrease (core construction), explicit targets naming a fluid or missing component, a block flagged DUMMY
    below the top, radial dimensions (C03).
 
@@ -82,6 +89,7 @@
      _lit_<Clause>           one literal clause each (refuted)          _whatif_*                the two what-if variants
      _emit / _emit_thorough  every distinct state printed as (design, calls, observation) for the replay on armi
      _cases / _cases_thorough  one call on every 1-/2-block stack of the block catalogue: target choice, links, refusals
+     _hist / _hist_thorough  call ; ReplaceBlock / EditMult ; call histories: invariants + printed for the replay
      _trace                  batch validation of histories recorded from armi
      CoreMesh*.tla/.cfg      the core level: this assembly as reference assembly of a core, calls interleaved with
                              manageCoreMesh (uniform-mesh snap of the follower assemblies) -- see CoreMesh.tla
@@ -98,6 +106,8 @@ CONSTANTS Designs,        \* set of [types |-> <<block types below the top block
           FromInput,      \* values of expandFromTinputToThot explored (subset of BOOLEAN)
           ExplicitTargets,\* TRUE: every choice of an explicit (blueprint) target component per block is explored too
           Refusals,       \* TRUE: also explore the calls refused with RuntimeError
+          Replacements,   \* set of [t |-> block type, e |-> designated target index or 0] a block may be replaced with
+          Edits,          \* set of [name |-> component name, m |-> new multiplicity] geometry edits
           ZeroHeightRefused, \* FALSE = the code as it is (_checkBlockHeight raises for height < 0.0); TRUE = with the guard `<= 0.0`
           AlignTarget,    \* FALSE = the code as it is; TRUE = what-if: the target component's bottom is put on the block bottom
           MaxLevel
@@ -173,30 +183,39 @@ IMin2(a, b) == IF a <= b THEN a ELSE b
 RECURSIVE SumSeq(_, _)
 SumSeq(s, n) == IF n = 0 THEN 0 ELSE s[n] + SumSeq(s, n - 1)          \* s[1] + ... + s[n]
 
-\* assemblyAxialLinkage.areAxiallyLinked
+\* assemblyAxialLinkage.areAxiallyLinked (the default rule)
 LinkedTy(x, y) == /\ x.solid /\ y.solid
                   /\ x.cls = y.cls
                   /\ x.mult = y.mult
                   /\ x.cls # "Unshaped"
                   /\ IMax2(x.idm, y.idm) < IMin2(x.od, y.od)
+\* AssemblyAxialLinkage.areAxiallyLinked is the documented hook a subclass overrides to decide what is linked.  The rule is
+\* a dimension of the design: "default", or "freeclad" = a subclass for which cladding tubes are never linked to anything
+\* and everything else follows the default rule (links are then looked up through the hook: _findComponentLinkedTo).
+LinkedR(rule, x, y) == IF rule = "freeclad" /\ ("clad" \in x.flags \/ "clad" \in y.flags) THEN FALSE ELSE LinkedTy(x, y)
 DNames(d, b) == IF b >= 1 /\ b <= Len(d.types) THEN BT[d.types[b]].comps
                 ELSE IF b = Len(d.types) + 1 /\ d.top # "" THEN BT[d.top].comps
                 ELSE <<>>                                         \* a dummy top holds only coolant (outside the model)
-DLinks(d, b, i, bb) == {j \in 1..Len(DNames(d, bb)) : LinkedTy(CT[DNames(d, b)[i]], CT[DNames(d, bb)[j]])}
+\* the catalogue entry of a component with its multiplicity as edited since construction (mults[b][i] = 0: as built)
+ECT(d, mults, b, i) == LET c == CT[DNames(d, b)[i]] IN [c EXCEPT !.mult = IF mults[b][i] = 0 THEN @ ELSE mults[b][i]]
+DLinks(d, mults, b, i, bb) == {j \in 1..Len(DNames(d, bb)) : LinkedR(d.rule, ECT(d, mults, b, i), ECT(d, mults, bb, j))}
 Pick(S) == IF S = {} THEN 0 ELSE CHOOSE j \in S : TRUE
-StaticOf(d, ex) ==
+NoMults(d) == [b \in 1..(Len(d.types) + 1) |-> [i \in 1..Len(DNames(d, b)) |-> 0]]
+\* d = current design; types0 / explN = block types and explicit target names the assembly was BUILT with
+StaticOf(d, explN, types0, mults) ==
     LET k == Len(d.types) IN
-    [types |-> d.types, hs |-> d.hs, hd |-> d.hd, top |-> d.top, det |-> d.det, hot |-> d.hot, k |-> k,
-     expl  |-> [b \in 1..(k + 1) |-> IF ex[b] = 0 THEN "" ELSE DNames(d, b)[ex[b]]],   \* blueprint (explicit) target names
+    [types |-> d.types, hs |-> d.hs, hd |-> d.hd, top |-> d.top, det |-> d.det, hot |-> d.hot, rule |-> d.rule, k |-> k,
+     types0 |-> types0, expl |-> explN, mults |-> mults,
      H     |-> SumSeq(d.hs, k) + d.hd,
      ng    |-> (SumSeq(d.hs, k) + d.hd) \div 2,
      names |-> [b \in 1..(k + 1) |-> DNames(d, b)],
      solid |-> [b \in 1..(k + 1) |-> [i \in 1..Len(DNames(d, b)) |-> CT[DNames(d, b)[i]].solid]],
      mat   |-> [b \in 1..(k + 1) |-> [i \in 1..Len(DNames(d, b)) |-> CT[DNames(d, b)[i]].mat]],
-     lower |-> [b \in 1..(k + 1) |-> [i \in 1..Len(DNames(d, b)) |-> Pick(DLinks(d, b, i, b - 1))]],
-     upper |-> [b \in 1..(k + 1) |-> [i \in 1..Len(DNames(d, b)) |-> Pick(DLinks(d, b, i, b + 1))]],
+     lower |-> [b \in 1..(k + 1) |-> [i \in 1..Len(DNames(d, b)) |-> Pick(DLinks(d, mults, b, i, b - 1))]],
+     upper |-> [b \in 1..(k + 1) |-> [i \in 1..Len(DNames(d, b)) |-> Pick(DLinks(d, mults, b, i, b + 1))]],
      multi |-> \E b \in 1..(k + 1) : \E i \in 1..Len(DNames(d, b)) :
-                  Cardinality(DLinks(d, b, i, b - 1)) > 1 \/ Cardinality(DLinks(d, b, i, b + 1)) > 1]
+                  Cardinality(DLinks(d, mults, b, i, b - 1)) > 1 \/ Cardinality(DLinks(d, mults, b, i, b + 1)) > 1]
+DesignOf(a) == [types |-> a.types, hs |-> a.hs, hd |-> a.hd, top |-> a.top, det |-> a.det, hot |-> a.hot, rule |-> a.rule]
 
 K         == A.k
 NBk       == K + 1
@@ -284,17 +303,16 @@ ExpandCore(c0, g, tn) == ExpandFrom(1, [zb |-> zb, zt |-> zt, h |-> h, comp |-> 
 
 Hist(a, g) == /\ act' = a /\ path' = Append(path, a)
               /\ pre' = Snap /\ lg' = g /\ pre2' = pre /\ lg2' = lg
-              /\ A' = A
 
 Commit(r, names, a, g) ==
-    /\ zb' = r.zb /\ zt' = r.zt /\ h' = r.h /\ comp' = r.comp /\ tname' = names /\ placed' = TRUE
+    /\ zb' = r.zb /\ zt' = r.zt /\ h' = r.h /\ comp' = r.comp /\ tname' = names /\ placed' = TRUE /\ A' = A
     /\ IF r.fail = 0 THEN mesh' = <<RZero>> \o r.zt /\ broken' = FALSE /\ err' = ""
        ELSE mesh' = mesh /\ broken' = TRUE /\ err' = "ArithmeticError"
     /\ Hist(a, g)
 
 \* a call refused before axiallyExpandAssembly; cN = component records (temperatures may have been touched)
 Refuse(names, cN, e, a) ==
-    /\ zb' = zb /\ zt' = zt /\ h' = h /\ comp' = cN /\ tname' = names /\ placed' = placed
+    /\ zb' = zb /\ zt' = zt /\ h' = h /\ comp' = cN /\ tname' = names /\ placed' = placed /\ A' = A
     /\ mesh' = mesh /\ broken' = FALSE /\ err' = e
     /\ Hist(a, <<>>)
 
@@ -363,7 +381,7 @@ ThermalBadLen(setFuel) ==
 InitFor(d, ex) ==
     LET k == Len(d.types)
         hh == d.hs \o <<d.hd>>
-    IN /\ A = StaticOf(d, ex)
+    IN /\ A = StaticOf(d, [b \in 1..(k + 1) |-> IF ex[b] = 0 THEN "" ELSE DNames(d, b)[ex[b]]], d.types, NoMults(d))
        /\ zt = [b \in 1..(k + 1) |-> RInt(SumSeq(hh, b))]
        /\ zb = [b \in 1..(k + 1) |-> RInt(SumSeq(hh, b - 1))]
        /\ h  = [b \in 1..(k + 1) |-> RInt(hh[b])]
@@ -372,6 +390,32 @@ InitFor(d, ex) ==
        /\ tname = ex
        /\ mesh = <<>> /\ placed = FALSE /\ broken = FALSE /\ err = "" /\ act = [n |-> "Init"] /\ path = <<>>
        /\ pre = <<>> /\ lg = <<>> /\ pre2 = <<>> /\ lg2 = <<>>
+\* ---- edits of the assembly between calls (not calls of the changer) ----
+\* Block.replaceBlockWithBlock(replacement): block b keeps its identity, height and elevations (retainOnReplacement) and takes
+\* every other parameter -- among them the designated target name -- and deep copies of the components of the replacement
+ReplaceBlock(b, rp) ==
+    LET d2   == [DesignOf(A) EXCEPT !.types[b] = rp.t]
+        m2   == [A.mults EXCEPT ![b] = [i \in 1..Len(BT[rp.t].comps) |-> 0]]
+    IN /\ CanCall /\ b \in 1..K
+       /\ A' = StaticOf(d2, A.expl, A.types0, m2)
+       /\ comp' = [comp EXCEPT ![b] = [i \in 1..Len(BT[rp.t].comps) |->
+                                         [h |-> RZero, zb |-> RZero, zt |-> RZero, lin |-> ROne, T |-> RInt(A.hot)]]]
+       /\ tname' = [tname EXCEPT ![b] = rp.e]
+       /\ UNCHANGED <<zb, zt, h, mesh, placed>>
+       /\ broken' = FALSE /\ err' = ""
+       /\ Hist([n |-> "ReplaceBlock", b |-> b, t |-> rp.t, e |-> IF rp.e = 0 THEN "" ELSE BT[rp.t].comps[rp.e]], <<>>)
+\* Component.setDimension("mult", m): the cold geometry of component i of block b is edited; its cross-section (and so its
+\* linear density and mass) scales with the multiplicity, and what it is linked to may change
+EditMult(b, i, m) ==
+    LET old == ECT(DesignOf(A), A.mults, b, i).mult
+        m2  == [A.mults EXCEPT ![b][i] = m]
+    IN /\ CanCall /\ b \in 1..NBk /\ i \in 1..NC(b) /\ m # old
+       /\ A' = StaticOf(DesignOf(A), A.expl, A.types0, m2)
+       /\ comp' = [comp EXCEPT ![b][i].lin = RMul(@, RFrac(m, old))]
+       /\ UNCHANGED <<zb, zt, h, mesh, placed, tname>>
+       /\ broken' = FALSE /\ err' = ""
+       /\ Hist([n |-> "EditMult", b |-> b, i |-> i, m |-> m], <<>>)
+
 ExplChoices(d) ==
     LET k == Len(d.types) IN
     IF ExplicitTargets
@@ -388,6 +432,8 @@ Next == \/ \E g \in SparseVectors, sf \in SetFuelChoices : Prescribed(g, sf, "sp
         \/ \E f \in StepFields, fi \in FromInput : Thermal(f, TRUE, fi)
         \/ \E kind \in {"zero", "negative", "length"} : PrescribedBad(kind, TRUE)
         \/ ThermalBadLen(TRUE)
+        \/ \E b \in 1..K, rp \in Replacements : ReplaceBlock(b, rp)
+        \/ \E e \in Edits : \E b \in 1..NBk : \E i \in 1..NC(b) : CNames(b)[i] = e.name /\ EditMult(b, i, e.m)
 Spec == Init /\ [][Next]_vars
 
 (* ------------------------------------------- properties -------------------------------------------------- *)
@@ -409,7 +455,7 @@ Contiguous == ~broken => /\ zb[1] = RZero
 NonNegativeHeights == ~broken => \A b \in 1..NBk : RLeq(RZero, h[b])
 GridBoundsAreElevations == (~broken /\ mesh # <<>>) => mesh = <<RZero>> \o zt
 BoundaryFollowsTarget == Expanded => \A b \in 1..K : tname[b] # 0 /\ zt[b] = comp[b][tname[b]].zt
-LinkedStayStacked == (placed /\ ~broken) =>
+LinkedStayStacked == Expanded =>      \* (after a completed call; a replaced block's new components are placed by the next call)
     \A x \in SolidIx : LET b == x[1]  i == x[2]  c == comp[b][i] IN
         /\ c.zt = RAdd(c.zb, c.h)
         /\ c.zb = IF b = 1 THEN RZero ELSE IF Lower(b, i) # 0 THEN comp[b - 1][Lower(b, i)].zt ELSE zt[b - 1]
@@ -459,7 +505,9 @@ NameOf(b, i) == IF i = 0 THEN "" ELSE CNames(b)[i]
 ObsMass(b, i) == IF broken THEN RZero ELSE RDiv(MassOf(b, i), RInt(HInit(b)))
 Sq(x) == RMul(x, x)
 LocZ == IF mesh = <<>> THEN <<>> ELSE [b \in 1..NBk |-> RDiv(RAdd(mesh[b], mesh[b + 1]), RInt(2))]
-Obs == [zb |-> zb, zt |-> zt, h |-> h, mesh |-> mesh, placed |-> placed, broken |-> broken, err |-> err,
+Obs == [zb |-> zb, zt |-> zt, h |-> h, mesh |-> mesh,
+        placed |-> \E b \in 1..NBk : \E i \in 1..NC(b) : comp[b][i].zt # RZero,       \* some component carries zbottom/ztop/height
+        broken |-> broken, err |-> err,
         loc |-> [b \in 1..NBk |-> b - 1],                      \* b.spatialLocator = a.spatialGrid[0, 0, ib]
         \* axial coordinate of each block's locator in the assembly grid (cell centre of the bounds; unobserved until set)
         locz |-> LocZ,
@@ -470,7 +518,9 @@ Obs == [zb |-> zb, zt |-> zt, h |-> h, mesh |-> mesh, placed |-> placed, broken 
                     [name |-> CNames(b)[i], solid |-> Solid(b, i),
                      h |-> comp[b][i].h, zb |-> comp[b][i].zb, zt |-> comp[b][i].zt,
                      lin |-> comp[b][i].lin, T |-> comp[b][i].T,
-                     ndr |-> RDiv(comp[b][i].lin, Sq(RDiv(LF(A.mat[b][i], comp[b][i].T), LF(A.mat[b][i], RInt(A.hot))))),
+                     \* number density relative to as built = lin / (area relative to as built: radial expansion, edited multiplicity)
+                     ndr |-> RDiv(RDiv(comp[b][i].lin, Sq(RDiv(LF(A.mat[b][i], comp[b][i].T), LF(A.mat[b][i], RInt(A.hot))))),
+                              RFrac(ECT(DesignOf(A), A.mults, b, i).mult, CTy(b, i).mult)),
                      mass |-> ObsMass(b, i),
                      lower |-> IF MultiLinked THEN "" ELSE NameOf(b - 1, Lower(b, i)),
                      upper |-> IF MultiLinked THEN "" ELSE NameOf(b + 1, Upper(b, i))]]]]
